@@ -2,6 +2,9 @@
    P <hex>                   registry.ParseReference
    R <hexreg> <hexrepo> <hex>  Repository.ParseReference with base
    U <kind> <plain> <hexreg> <hexrepo> <hexref>   URL builders
+   V <repo|tag|digest> <hex>   one component validator
+   A <hexalg> <true|false>     configuration: is the hash implementation linked into the harness binary
+   F <hexreg> <hexrepo> <hexref>   Reference.String()
    O <op> <plain> <hexreg> <hexrepo> <hexinput> <hexdescdigest>   requests of a reference-taking operation *)
 let show_verdict v =
   match v with
@@ -9,16 +12,30 @@ let show_verdict v =
   | VErr -> "ERR"
   | VUnjudged -> "UNJUDGED"
 
+(* which hash implementations the harness binary links: configured by the "A" lines the harness
+   emits first (default: all) *)
+let unavailable : n list list ref = ref []
+let avail (a : n list) : bool = not (List.mem a !unavailable)
+
 let () =
   iter_lines (fun l ->
     match split_ws l with
+    | [id; "A"; h; v] ->
+      let a = str_of_hex h in
+      if v = "true" then unavailable := List.filter (fun x -> x <> a) !unavailable
+      else unavailable := a :: !unavailable;
+      Printf.printf "%s AVAIL %s\n" id v
+    | [id; "F"; hr; hp; hf] ->
+      let unh h = if h = "-" then [] else str_of_hex h in
+      let r = { r_registry = unh hr; r_repository = unh hp; r_reference = unh hf } in
+      Printf.printf "%s FMT %s\n" id (hex_of_str (format avail r))
     | [id; "P"; h] ->
-      let v = parse_verdict (str_of_hex h) in
+      let v = parse_verdict avail (str_of_hex h) in
       (match v with
-       | VOk r -> Printf.printf "%s %s FMT %s\n" id (show_verdict v) (hex_of_str (format r))
+       | VOk r -> Printf.printf "%s %s FMT %s\n" id (show_verdict v) (hex_of_str (format avail r))
        | _ -> Printf.printf "%s %s\n" id (show_verdict v))
     | [id; "R"; hr; hp; h] ->
-      Printf.printf "%s %s\n" id (show_verdict (repo_parse_verdict (str_of_hex hr) (str_of_hex hp) (str_of_hex h)))
+      Printf.printf "%s %s\n" id (show_verdict (repo_parse_verdict avail (str_of_hex hr) (str_of_hex hp) (str_of_hex h)))
     | [id; "U"; kind; plain; hr; hp; hf] ->
       let r = { r_registry = str_of_hex hr; r_repository = str_of_hex hp; r_reference = str_of_hex hf } in
       let p = (plain = "1") in
@@ -28,17 +45,32 @@ let () =
         | "referrers" -> url_referrers p r
         | "taglist" -> url_taglist p r
         | "upload" -> url_upload p r
+        | "base" -> url_base p r
+        | "catalog" -> url_catalog p r
+        | "repobase" -> url_repo_base p r
         | _ -> failwith "kind" in
-      Printf.printf "%s URL %s\n" id (hex_of_str u)
+      let hx s = match s with [] -> "-" | _ -> hex_of_str s in
+      let ho o = match o with None -> "none" | Some s -> "some:" ^ hx s in
+      (match url_split u with
+       | Some p -> Printf.printf "%s URL %s SPLIT %s %s %s %s %s\n" id (hex_of_str u) (hx p.u_scheme) (hx p.u_authority) (hx p.u_path) (ho p.u_query) (ho p.u_fragment)
+       | None -> Printf.printf "%s URL %s NOSPLIT\n" id (hex_of_str u))
     | [id; "O"; op; plain; hr; hp; hs; hd] ->
       let o = match op with
         | "mresolve" -> OpMResolve | "mfetchref" -> OpMFetchRef | "tag" -> OpTag
         | "pushref" -> OpPushRef | "bresolve" -> OpBResolve | "bfetchref" -> OpBFetchRef
         | _ -> failwith "op" in
-      (match op_requests_verdict o (plain = "1") (str_of_hex hr) (str_of_hex hp) (str_of_hex hs) (str_of_hex hd) with
+      (match op_requests_verdict avail o (plain = "1") (str_of_hex hr) (str_of_hex hp) (str_of_hex hs) (str_of_hex hd) with
        | OUnjudged -> Printf.printf "%s UNJUDGED\n" id
        | ORefused -> Printf.printf "%s REQS\n" id
        | OReqs l -> Printf.printf "%s REQS%s\n" id
                       (String.concat "" (List.map (fun (m, u) -> " " ^ hex_of_str m ^ ":" ^ hex_of_str u) l)))
+    | [id; "V"; kind; h] ->
+      let s = if h = "-" then [] else str_of_hex h in
+      let v = match kind with
+        | "repo" -> valid_repository s
+        | "tag" -> valid_tag s
+        | "digest" -> valid_digest avail s
+        | _ -> failwith "component" in
+      Printf.printf "%s VALID %s\n" id (if v then "true" else "false")
     | [] -> ()
     | _ -> Printf.printf "BADLINE %s\n" l)
